@@ -89,7 +89,7 @@ theorem cvsFinish_lens (xsz : Nat) (st : CvsState) (a b c : Nat) (shapes : List 
   split at h
   · contradiction
   · simp only [] at h
-    split at h <;> split at h <;> first
+    split at h <;> first
       | contradiction
       | (simp only [Except.ok.injEq, Prod.mk.injEq] at h; exact ⟨h.2.2.2.1.symm, h.2.2.2.2.symm⟩)
 
@@ -171,7 +171,7 @@ theorem cvsFinish_extent (xsz : Nat) (st : CvsState) (a b c : Nat) (shapes : Lis
   split at h
   · contradiction
   · simp only [] at h
-    split at h <;> split at h <;> first
+    split at h <;> first
       | contradiction
       | (rename_i hc; simp only [Except.ok.injEq, Prod.mk.injEq] at h; obtain ⟨rfl, _⟩ := h; omega)
 
